@@ -1048,7 +1048,86 @@ func (c *checker) serveOnce(rc *recipe, dir string, me *refctl.Identity, run int
 	}
 	c.checkIDs(rc, source, sv)
 	r.Count("served_accessories", len(sv))
+	if run == 2 {
+		c.afterWrites(rc, cn, m.Body, sv)
+	}
 	return sv, true
+}
+
+// afterWrites: the database has to be well-formed whatever controllers have written since.  A verified controller
+// writes values nobody sends by accident (numbers as strings that parse to an infinity or to no number, the largest
+// doubles, empty and very long strings) to up to 16 writable characteristics, those without declared bounds first; the
+// accessory may refuse or clamp each of them; then the database is fetched again: 200, well-formed, the same ids.
+func (c *checker) afterWrites(rc *recipe, cn *refctl.Conn, body []byte, before []accView) {
+	r := c.r
+	db, err := refctl.ParseAttrDB(body)
+	if err != nil {
+		return
+	}
+	type tgt struct {
+		aid uint64
+		ch  refctl.AttrChar
+	}
+	var open, bounded []tgt
+	for _, a := range db.Accessories {
+		for _, sv := range a.Services {
+			for _, ch := range sv.Characteristics {
+				if !ch.Has("pw") || ch.Format == "tlv8" || ch.Format == "data" {
+					continue
+				}
+				if len(ch.MaxValue) == 0 && len(ch.MinValue) == 0 {
+					if ch.Format == "float" {
+						open = append([]tgt{{a.AID, ch}}, open...)
+						r.Count("writable_floats_without_bounds_in_served_databases", 1)
+					} else {
+						open = append(open, tgt{a.AID, ch})
+					}
+				} else {
+					bounded = append(bounded, tgt{a.AID, ch})
+				}
+			}
+		}
+	}
+	targets := append(open, bounded...)
+	if len(targets) > 16 {
+		targets = append(targets[:12], bounded[max(0, len(bounded)-4):]...)
+	}
+	if len(targets) == 0 {
+		return
+	}
+	hostile := []string{`"1e999"`, `"-1e999"`, `"inf"`, `"NaN"`, `"+Inf"`, `1.7976931348623157e308`, `-1.7976931348623157e308`, `""`, `"` + strings.Repeat("9", 400) + `"`, `18446744073709551615`, `"0x7fffffffffffffff"`, `1e400`}
+	var written []string
+	for k, t := range targets {
+		v := json.RawMessage(hostile[(k+len(rc.Accs)+len(written))%len(hostile)])
+		if t.ch.Format == "float" && k%4 != 3 {
+			v = json.RawMessage(hostile[(k+len(rc.Accs))%5]) // text that parses to an infinity or to no number
+		}
+		m, err := cn.Do("PUT", "/characteristics", refctl.ContentJSON, refctl.PutBody(refctl.CharValue{AID: t.aid, IID: t.ch.IID, Value: &v}))
+		if err != nil {
+			c.fail(rc, "served:after-writes:connection-lost", fmt.Sprintf("the connection was lost on PUT %d.%d (format %s) value %s: %v", t.aid, t.ch.IID, t.ch.Format, head(v, 40), err), nil)
+			return
+		}
+		_ = m
+		r.Count("hostile_values_written_before_the_database_is_fetched_again", 1)
+		written = append(written, fmt.Sprintf("%d.%d %s <- %s", t.aid, t.ch.IID, t.ch.Format, head(v, 30)))
+	}
+	m, err := cn.Do("GET", "/accessories", "", nil)
+	if err != nil {
+		c.fail(rc, "served:after-writes:no-answer", fmt.Sprintf("GET /accessories after %d value writes: %v", len(written), err), map[string]interface{}{"writes": written})
+		return
+	}
+	if m.Status != 200 {
+		c.fail(rc, "served:after-writes:status", fmt.Sprintf("GET /accessories answered %d (%s) after a controller wrote %d values", m.Status, head(m.Body, 80), len(written)), map[string]interface{}{"writes": written})
+		return
+	}
+	after, ok := c.parseDB(rc, "served after value writes", m.Body)
+	if !ok {
+		return
+	}
+	if d, _ := diffViews(canon(before), canon(after)); d != "" {
+		c.fail(rc, "ids:changed-by-value-writes", "after value writes of a controller the served database carries other ids: "+d, map[string]interface{}{"writes": written})
+	}
+	r.Count("databases_fetched_again_after_value_writes", 1)
 }
 
 // serve is the restart of the property: the recipe is served by a transport, the transport is
@@ -1507,6 +1586,8 @@ func main() {
 	r.Floor("size_sweep_length_mod_2048", r.DistinctN("size_sweep_length_mod_2048"), 2048)
 	r.Floor("size_sweep_bodies_of_a_multiple_of_the_chunk_size", int(r.Counter("size_sweep_bodies_of_a_multiple_of_the_chunk_size")), 2)
 	r.Floor("size_sweep_answers_abandoned_by_another_controller", int(r.Counter("size_sweep_answers_abandoned_by_another_controller")), 100)
+	r.Floor("databases_fetched_again_after_value_writes", int(r.Counter("databases_fetched_again_after_value_writes"))+1000*r.ViolationCount(), 20)
+	r.Floor("writable_floats_without_bounds_in_served_databases", int(r.Counter("writable_floats_without_bounds_in_served_databases"))+1000*r.ViolationCount(), 2)
 
 	c.flushTyped()
 
